@@ -419,10 +419,21 @@ def class_for(entry_cls, spec):
     return entry_cls
 
 
+def _iterator_deps(FA):
+    """paths of the checked API methods that `next` / `next_back` of an iterator implementation call (directly)"""
+    out = set()
+    for f in FA.lib_fns(include_closures=False):
+        if f['name'] in ('next', 'next_back', 'nth') and f['impl_trait'].split('::')[-1] in ('Iterator', 'DoubleEndedIterator'):
+            for g in FA.with_closures(f):
+                out.update(FA.callees_of(g))
+    return out
+
+
 def rule_G(FA):
     """One instance per (API method, specialisation, contract argument, accepting return)."""
     _OPT.fa = FA
     out = []
+    it_deps = _iterator_deps(FA)
     for (base, name), contract in sorted(API.items()):
         cands = find_method(FA, base, name)
         props = PROPS_OF_BASE[base]
@@ -430,6 +441,8 @@ def rule_G(FA):
             out.append(Inst('R-G', 'R-G|%s::%s|anchor' % (base, name), 'violation', '', 'method not found (anchor lost)', props))
             continue
         f = cands[0]
+        if f['path'] in it_deps:
+            props = props + ['C12']    # an iterator ends when this checked method answers None: its guard is part of C12
         LEN = len_term(FA, base)
         # make sure const-generic contract parameters are specialised even if unused in the body
         specs = list(FA.specs(f, deep=True))
@@ -687,6 +700,18 @@ def canon_opt(t):
     return t
 
 
+def _same_modulo_option(FA, val, uret_m, spec):
+    want = norm(canon_opt(uret_m))
+    if has_unknown(want):
+        return False
+    if norm(canon_opt(val)) == want:
+        return True     # the Some payload (already opened by the Option algebra) is the unchecked twin's value
+    ov = opt_view(FA, val, spec)
+    if not ov:
+        return False
+    return all(norm(canon_opt(p)) == want for _, p in ov)
+
+
 def twin_pairs(FA):
     for f in FA.lib_fns(include_closures=False):
         if not f['name'].endswith('_unchecked'):
@@ -744,8 +769,10 @@ def rule_TW(FA):
                     inner = _unwrap_of(uret_m)
                     if inner is not None and _is_call_to(inner, m['name'], pm):
                         shapes.add('ii')
-                    elif inner is not None and sk in ('some', 'deleg?') and g is None and False:
-                        pass
+                    elif val is not None and _same_modulo_option(FA, val, uret_m, spec):
+                        # (vii) the checked twin returns the unchecked twin's expression through Option combinators
+                        # (`opt.as_ref().and_then(|x| self.worker(i, x))` / `self.worker(i, opt.as_ref().unwrap()).unwrap()`)
+                        shapes.add('vii')
                     else:
                         bad.append((where, 'accepting return yields %s, which is not %s(%s)' % (
                             show(val) if val is not None else '?', u['name'], ', '.join(show(p) for p in pm))))
